@@ -274,8 +274,8 @@ def run(prog: Program, rep: Report, tier: str):
     # ---- 3. zero budgets assert a zero checkpoint ------------------------------------------------------------------------------
     rep.rule("G8.zero-budget-checkpoint", "on the zero-budget route __iter__ asserts start_epoch == start_update == start_sample "
              "== 0 before the evaluation pass")
-    it = prog.method("InterleavedSampler", "__iter__", own=True)
-    fa_it = fa_of(prog, it)
+    it = prog.raw.method("InterleavedSampler", "__iter__", own=True)  # the routing itself is the subject
+    fa_it = fa_of(prog.raw, it)
     ys = [n for n, y in fa_it.yields() if isinstance(y, ast.YieldFrom)
           and fa_it.sym.term(y.value, n)[:2] == ("call", ("self", "_eval_loop"))]
     ok = None
